@@ -256,6 +256,16 @@ def c18_unary_args(E, s):
         key = tuple([slice(None)] * s['k'])
         ok, z, exc = attempt(E, lambda: x[key])
         compat = s['k'] == (d if kind == 'tt' else 2 * d)
+    elif what == 'getitem_arity_none':
+        k = s['k']
+        base = [slice(None)] * k
+        if kind == 'ttm':
+            half = k // 2
+            key = tuple([None] + [slice(None)] * half + [None] + [slice(None)] * (k - half))
+        else:
+            key = tuple([None] + base) if s.get('front', True) else tuple(base + [None])
+        ok, z, exc = attempt(E, lambda: x[key])
+        compat = k == (d if kind == 'tt' else 2 * d)
     elif what == 'getitem_int':
         i = E.dim('i', -2 * B, 2 * B)
         key = tuple([i] + [slice(None)] * (d - 1)) if kind == 'tt' else tuple(([i] + [slice(None)] * (d - 1)) * 2)
